@@ -6,6 +6,7 @@ require (
 	github.com/Comcast/rulio v0.0.0
 	github.com/Comcast/sheens v2.0.0+incompatible
 	github.com/anishathalye/porcupine v1.3.0
+	github.com/robertkrimen/otto v0.0.0-20191219234010-c382bd3c16ff
 )
 
 require (
@@ -18,7 +19,6 @@ require (
 	github.com/gorhill/cronexpr v0.0.0-20180427100037-88b0669f7d75 // indirect
 	github.com/hailocab/go-hostpool v0.0.0-20160125115350-e80d13ce29ed // indirect
 	github.com/hashicorp/golang-lru v0.5.4 // indirect
-	github.com/robertkrimen/otto v0.0.0-20191219234010-c382bd3c16ff // indirect
 	gopkg.in/inf.v0 v0.9.1 // indirect
 	gopkg.in/sourcemap.v1 v1.0.5 // indirect
 )
